@@ -533,7 +533,7 @@ def finish(v, level, rule, trusted, assumptions, explanation=None):
         replay = dict(replay, property=v.prop, summary=summary, seed=v.seed, tier=v.tier,
                       replay_cmd='./check %s --replay %s' % (v.prop, path))
         with open(path, 'w') as f:
-            json.dump(replay, f, indent=1)
+            json.dump(replay, f, indent=1, default=lambda o: o.hex() if isinstance(o, (bytes, bytearray)) else str(o))
         print('VIOLATION property=%s replay=%s%s' % (v.prop, path, '' if has_input else ' no-failing-input-found'))
         rc = 1
     if rc == 0:
